@@ -176,6 +176,7 @@ struct Tot {
     random: u64,
     pinned: u64,
     storm: u64,
+    backlog: u64,
     keys: std::collections::HashSet<String>,
     samples: Vec<J>,
     bad: Vec<(String, String)>,
@@ -271,6 +272,11 @@ fn trial(front: Front, scenario: u32, psite: u32, occ: u64, with_signal: bool, s
     match scenario {
         0 => director::set_rule(psite, RuleSpec { mode: mode::PAUSE, class_mask: class::CONSUMER, nth: occ, arg: 0, ..Default::default() }),
         1 => director::set_rule(site::IT_CLOSE_FLAGGED, RuleSpec { mode: mode::PAUSE, class_mask: class::MUTATOR, nth: 1, arg: 1, ..Default::default() }),
+        6 => {
+            // the consumer is held before its first read while a backlog of wake-ups builds up
+            let hold = if front == Front::Poll { site::IT_PS_LOOP } else { site::IT_HAS_BEFORE_READ };
+            director::set_rule(hold, RuleSpec { mode: mode::PAUSE, class_mask: class::CONSUMER, nth: 1, arg: 0, ..Default::default() });
+        }
         5 => {
             CLOSE_GO.store(0, Ordering::SeqCst);
             CLOSE_DONE.store(0, Ordering::SeqCst);
@@ -427,6 +433,49 @@ fn trial(front: Front, scenario: u32, psite: u32, occ: u64, with_signal: bool, s
                 tot.bad.push(("is-closed-not-sticky".into(), format!("is_closed() false on a clone after close() returned [{}]", label)));
             }
             *LAST_STEP.lock().unwrap() = (0, fired);
+        }
+        6 => {
+            // close() with the self-pipe completely full (hundreds of undrained wake-ups): it must return all the same, and the
+            // consumer must end once it runs again
+            tot.backlog += 1;
+            tot.keys.insert(format!("{:?}:backlog", front));
+            let tw = crate::now_ms();
+            while director::parked(0) != Some(5) && crate::now_ms() - tw < 2000 {
+                std::thread::yield_now();
+            }
+            for _ in 0..600 {
+                unsafe { libc::raise(sig) };
+            }
+            let h = clone_a.clone();
+            let done = closer_done.clone();
+            closer_join = Some(std::thread::spawn(move || {
+                crate::set_thread(6, class::MUTATOR);
+                close_caught(&h);
+                director::lib_exit();
+                done.store(true, Ordering::SeqCst);
+            }));
+            // the closer has nothing to wait for: burning CPU without returning is the verdict
+            let t0 = crate::now_ms();
+            let mut cpu0 = None;
+            while !closer_done.load(Ordering::SeqCst) {
+                std::thread::sleep(std::time::Duration::from_millis(5));
+                let pth = crate::THREAD_PTH[6].load(Ordering::SeqCst);
+                if pth != 0 {
+                    let c = crate::probe::thread_cpu_ns(pth as libc::pthread_t);
+                    let c0 = *cpu0.get_or_insert(c);
+                    if c.saturating_sub(c0) > 2_000_000_000 {
+                        tot.bad.push(("close-does-not-return".into(), format!("close() has burnt 2 s of CPU without returning while the self-pipe is full of undrained wake-ups (the consumer is not running) [{}]", label)));
+                        emit_violation("C11", "close-does-not-return", &tot.bad.last().unwrap().1);
+                        std::process::exit(1);
+                    }
+                }
+                if crate::now_ms() - t0 > 30_000 {
+                    tot.inconclusive = Some(format!("close() neither returned nor burnt CPU [{}]", label));
+                    std::process::exit(2);
+                }
+            }
+            director::rule_off(if front == Front::Poll { site::IT_PS_LOOP } else { site::IT_HAS_BEFORE_READ });
+            director::open_gate(0);
         }
         4 => {
             // a storm of the watched signal before, during and after close(): the iterator must still end, after at most a
@@ -758,6 +807,12 @@ pub fn main(args: &[String]) -> i32 {
                     break 'all;
                 }
             }
+            for _ in 0..2 {
+                trial(front, 6, 0, 0, true, sig, &mut rng, &mut tot);
+                if !tot.bad.is_empty() && !crate::has_flag(args, "--keep-going") || tot.inconclusive.is_some() {
+                    break 'all;
+                }
+            }
             for _ in 0..(random_n / 20).max(3) {
                 trial(front, 4, 0, 0, true, sig, &mut rng, &mut tot);
                 if !tot.bad.is_empty() && !crate::has_flag(args, "--keep-going") || tot.inconclusive.is_some() {
@@ -794,6 +849,7 @@ pub fn main(args: &[String]) -> i32 {
         .set("trials_random", J::u(tot.random))
         .set("trials_same_cpu", J::u(tot.pinned))
         .set("trials_signal_storm", J::u(tot.storm))
+        .set("trials_close_on_full_pipe", J::u(tot.backlog))
         .set("trials_site_not_reached", J::u(tot.site_not_reached))
         .set("poll_signal_calls", J::u(tot.polls))
         .set("poll_pending_results_checked", J::u(tot.pending_results))
